@@ -462,7 +462,7 @@ theorem jwt_sign_parse_front_roundtrip (o : Oracle) (cfg : Cfg) (hp hp' : Header
 /-! ### the assembled JWT round trip: claims codec (C10) + signature (C02) + validation (C04) -/
 
 open Model.JWTClaims in
-/-- **jwt_sign_parse_roundtrip (assembled).**  For every header, claims set and key: if `jwt.Sign`
+/-- **jwt_sign_parse_roundtrip_step (assembled, claims step as a hypothesis).**  For every header, claims set and key: if `jwt.Sign`
     succeeds with token `d`, then `Parser.Parse d` is — outcome for outcome — the claims step
     (`parseClaims`: JSON decoding, issuer and audience verifiers, `exp`/`nbf` against the clock, the
     NumericDate codec) applied to exactly the bytes `encodeClaims` produced, paired with the decoded
@@ -475,7 +475,7 @@ open Model.JWTClaims in
       for the decoder, until C10's general `numericDate_roundtrip` lands);
     * validation (C04): success of `parseClaims` means the clock is inside the validity window and
       both verifiers accepted (`GoatProofs.C04.finish_ok`, `jwt_parse_ok_sound`). -/
-theorem jwt_sign_parse_roundtrip (o : Oracle) (cfg : Cfg) (hp hp' : Header) (c c' : Claims)
+theorem jwt_sign_parse_roundtrip_step (o : Oracle) (cfg : Cfg) (hp hp' : Header) (c c' : Claims)
     (sk vk : Sig.SigningKey) (d : Bytes)
     (hb64 : B64Law o)
     (hsign : (signFull hp c sk).run o = .ok d)
@@ -508,14 +508,20 @@ theorem jwt_sign_parse_outcome (o : Oracle) (cfg : Cfg) (hp hp' : Header) (c : C
   jwt_front_roundtrip_with (encodeClaims c) parseClaims o cfg hp hp' sk vk d
     hb64 hsign hhdr halg' hallow hconf hfind hpair
 
-open Model.JWTClaims in
-/-- **JWT time claims, every nanosecond.**  `jwt.Sign(header, claims, key)` then `Parser.Parse`:
-    `ExpirationTime`, `NotBefore`, `IssuedAt` come back as exactly the instants that were signed —
-    any instant the encoder accepts (|seconds| ≤ 253402300799), any nanosecond part, either sign;
-    an unset claim stays unset.  Signature laws as in `jwt_sign_parse_roundtrip`; `hjson` = JSON law
-    on the claims object; `hunset` = `Raw` carries no stray exp/nbf/iat member; `hstep` = the claims
-    step succeeds (verifiers accept, the clock is inside the validity window: C04). -/
-theorem jwt_sign_parse_time_claims (o : Oracle) (cfg : Cfg) (hp hp' : Header) (c c' : Claims)
+open Model.JWTClaims GoatProofs.Lemmas.C10ClaimsRT in
+/-- **jwt_sign_parse_roundtrip (assembled; no hypothesis left on the claims step).**
+    `jwt.Sign(header, claims, key)` then `Parser.Parse`: the decoded header and EXACTLY the claims
+    that were signed come back — iss, sub, aud (0, 1 or n entries), exp / nbf / iat to the nanosecond
+    (any instant of the accepted range, fractional and negative included; unset stays unset), jti;
+    `Raw` is the decoded claims object, which by C10's `theMap_extra` holds every extra member of
+    `c.Raw` unchanged.  The three steps:
+    * signature (C02): `hb64`, `hhdr`, `hpair`, `hfind`, `hallow`, `hconf`;
+    * claims codec (C10 `claims_roundtrip`, through `C02Time.claims_step`): `hclean` (`Raw` uses no
+      registered claim name), `TimeOK` for the three instants, the JSON law on the claims object
+      (`hmarshal`, `hdecode`, `hjson`);
+    * validation (C04): both verifiers accept the token's own iss/sub/aud, and the clock is inside
+      the validity window (`hexp`: now < exp, `hnbf`: ¬ now < nbf, when those claims are set). -/
+theorem jwt_sign_parse_roundtrip (o : Oracle) (cfg : Cfg) (hp hp' : Header) (c : Claims)
     (sk vk : Sig.SigningKey) (d : Bytes)
     (hb64 : B64Law o)
     (hsign : (signFull hp c sk).run o = .ok d)
@@ -523,16 +529,44 @@ theorem jwt_sign_parse_time_claims (o : Oracle) (cfg : Cfg) (hp hp' : Header) (c
     (hallow : cfg.allows hp.alg = true) (hconf : cfg.configured = true)
     (hfind : Sig.signingKeyOfHandle (o (findKeyQuery hp')) = some (.ok vk))
     (hpair : Sig.SignVerifyPair o sk vk)
-    (hjson : ∀ payload m raw, (encodeClaims c).run o = .ok payload → claimsMap c = .ok m →
-      rawMap (o ⟨"json.decodeMap", [.bytes payload]⟩) = some raw → ∀ k, Wire.lookup k raw = Wire.lookup k m)
-    (hunset : ∀ name, name = "exp" ∨ name = "nbf" ∨ name = "iat" →
-      Wire.lookup name (C02Time.rawMembers c) = none)
-    (hstep : ∀ payload, (encodeClaims c).run o = .ok payload → (parseClaims payload).run o = .ok c') :
-    (parseFull cfg d).run o = .ok (hp', c') ∧ c'.exp = c.exp ∧ c'.nbf = c.nbf ∧ c'.iat = c.iat := by
-  refine ⟨jwt_sign_parse_roundtrip o cfg hp hp' c c' sk vk d hb64 hsign hhdr halg' hallow hconf hfind hpair hstep, ?_⟩
-  obtain ⟨payload, henc, _⟩ := jwt_sign_parse_outcome o cfg hp hp' c sk vk d hb64 hsign hhdr halg' hallow hconf hfind hpair
-  exact C02Time.time_claims_roundtrip o c c' payload henc (fun m raw hm hr => hjson payload m raw henc hm hr)
-    hunset (hstep payload henc)
+    (hclean : RawClean c) (he : TimeOK c.exp) (hn : TimeOK c.nbf) (hi : TimeOK c.iat)
+    (payload : Bytes) (kvs' : List (String × Wire))
+    (hmarshal : o ⟨"json.marshal", [.obj (theMap c)]⟩ = .bytes payload)
+    (hdecode : o ⟨"json.decodeMap", [.bytes payload]⟩ = .obj kvs')
+    (hjson : ∀ k, Wire.lookup k kvs' = Wire.lookup k (theMap c))
+    (hviss : o ⟨"verifyIssuer", [.str c.iss, .str c.sub]⟩ = .bool true)
+    (hvaud : o ⟨"verifyAudience", [.arr (c.aud.map Wire.str)]⟩ = .bool true)
+    (hexp : c.exp ≠ NumericDate.zeroTime → (o ⟨"now", []⟩).asInt < c.exp)
+    (hnbf : c.nbf ≠ NumericDate.zeroTime → ¬ (o ⟨"now", []⟩).asInt < c.nbf) :
+    (parseFull cfg d).run o = .ok (hp', C02Time.back c kvs') :=
+  jwt_sign_parse_roundtrip_step o cfg hp hp' c (C02Time.back c kvs') sk vk d hb64 hsign hhdr halg' hallow hconf
+    hfind hpair
+    (C02Time.claims_step o c hclean he hn hi payload kvs' hmarshal hdecode hjson hviss hvaud hexp hnbf)
+
+open Model.JWTClaims GoatProofs.Lemmas.C10ClaimsRT in
+/-- **JWT time claims, every nanosecond** (a reading of `jwt_sign_parse_roundtrip`): the token parses
+    and `ExpirationTime`, `NotBefore`, `IssuedAt` are exactly the instants that were signed. -/
+theorem jwt_sign_parse_time_claims (o : Oracle) (cfg : Cfg) (hp hp' : Header) (c : Claims)
+    (sk vk : Sig.SigningKey) (d : Bytes)
+    (hb64 : B64Law o)
+    (hsign : (signFull hp c sk).run o = .ok d)
+    (hhdr : HeaderRoundTrip o hp hp') (halg' : hp'.alg = hp.alg)
+    (hallow : cfg.allows hp.alg = true) (hconf : cfg.configured = true)
+    (hfind : Sig.signingKeyOfHandle (o (findKeyQuery hp')) = some (.ok vk))
+    (hpair : Sig.SignVerifyPair o sk vk)
+    (hclean : RawClean c) (he : TimeOK c.exp) (hn : TimeOK c.nbf) (hi : TimeOK c.iat)
+    (payload : Bytes) (kvs' : List (String × Wire))
+    (hmarshal : o ⟨"json.marshal", [.obj (theMap c)]⟩ = .bytes payload)
+    (hdecode : o ⟨"json.decodeMap", [.bytes payload]⟩ = .obj kvs')
+    (hjson : ∀ k, Wire.lookup k kvs' = Wire.lookup k (theMap c))
+    (hviss : o ⟨"verifyIssuer", [.str c.iss, .str c.sub]⟩ = .bool true)
+    (hvaud : o ⟨"verifyAudience", [.arr (c.aud.map Wire.str)]⟩ = .bool true)
+    (hexp : c.exp ≠ NumericDate.zeroTime → (o ⟨"now", []⟩).asInt < c.exp)
+    (hnbf : c.nbf ≠ NumericDate.zeroTime → ¬ (o ⟨"now", []⟩).asInt < c.nbf) :
+    ∃ c', (parseFull cfg d).run o = .ok (hp', c') ∧ c'.exp = c.exp ∧ c'.nbf = c.nbf ∧ c'.iat = c.iat :=
+  ⟨C02Time.back c kvs',
+   jwt_sign_parse_roundtrip o cfg hp hp' c sk vk d hb64 hsign hhdr halg' hallow hconf hfind hpair hclean he hn hi
+     payload kvs' hmarshal hdecode hjson hviss hvaud hexp hnbf, rfl, rfl, rfl⟩
 
 end Model.JWT
 
@@ -549,8 +583,8 @@ is covered by the two theorems below:
 * `Model.JWT.jwt_sign_parse_time_claims` (below, after the assembled theorem's namespace): through
   `jwt.Sign` → `Parser.Parse` the claims `exp`, `nbf`, `iat` come back as the SAME instants, to the
   nanosecond, for every instant the encoder accepts — a corollary of C10's `numericDate_roundtrip`
-  (∀ t in range, decode (encode t) = t; error analysis of the 128-bit big.Float parse), C04's `finish_ok`
-  and `C02Time.time_claims_roundtrip` (Lemmas/C02Claims.lean). -/
+  (∀ t in range, decode (encode t) = t; error analysis of the 128-bit big.Float parse), and its
+  `claims_roundtrip` (through `C02Time.claims_step`, Lemmas/C02Claims.lean). -/
 namespace C02Time
 open Model.NumericDate
 
